@@ -280,7 +280,7 @@ class CallTracer:
         if (
             event not in SUPPORTED_EVENTS
             or code.co_name == "trace_types"
-            or self.should_trace
+            or self.should_trace is not None
             and not self.should_trace(code)
         ):
             return self
